@@ -11,7 +11,7 @@ out=seeded/MATRIX.md
 echo "| seed | breaks | reported by (check: rules) |" > $out
 echo "|------|--------|----------------------------|" >> $out
 tmp=$(mktemp -d)
-trap 'git -C /repo checkout -- . ; rm -rf $tmp' EXIT
+trap 'git -C /repo checkout -- . ; git -C /repo clean -fdq pkg; rm -rf $tmp' EXIT
 for d in seeded/C*/; do
   id=$(basename $d)
   prop=$(python3 -c "import json;print(json.load(open('$d/meta.json'))['property'])")
@@ -24,7 +24,7 @@ for d in seeded/C*/; do
       hits="$hits $p: $rules;"
     fi
   done
-  git -C /repo checkout -- .
+  git -C /repo checkout -- . ; git -C /repo clean -fdq pkg
   echo "| $id | $prop | ${hits:-**not reported**} |" >> $out
   echo "$id -> ${hits:-MISSED}"
 done
